@@ -5,6 +5,7 @@
 From Coq Require Import List ZArith Arith Bool Lia Ring.
 Import ListNotations.
 From PP Require Import Lib.Csr Lib.Dense Model.C37 Proofs.C37_dense Proofs.C37_perm Proofs.C37.
+From PP Require Import Proofs.C37_slicer.
 
 (* (1) Over any commutative ring: if [inv] returns a two-sided inverse of every block
    (np.linalg.inv is trusted, [inv_ok]), then block_diag(inv B_i) is a two-sided inverse of
@@ -58,6 +59,37 @@ Theorem C37_row_slicer_is_perm_matrix :
     mat_mul zero add mul w (perm_mat zero one n p) A = select_rows zero A p w.
 Proof. exact perm_mat_select. Qed.
 Print Assumptions C37_row_slicer_is_perm_matrix.
+
+(* (2') The slicer model of invert_permuted_block_diag_matrix itself: for ALL index
+   permutations rp, cp (duplicate-free lists of length n with entries below n) and every
+   n x n matrix A over a commutative ring, if Bi is a two-sided inverse of the block form
+   A[rp,:][:,cp] = row_slicer @ (col_slicer.T @ A.T).T, then
+   col_slicer @ (row_slicer.T @ Bi.T).T is a two-sided inverse of A. *)
+Theorem C37_permuted_inverse :
+  forall (T : Type) (zero one : T) (add mul sub : T -> T -> T) (opp : T -> T),
+    ring_theory zero one add mul sub opp eq ->
+  forall n A Bi rp cp,
+    nn T n A -> nn T n Bi -> is_perm n rp -> is_perm n cp ->
+    mat_mul zero add mul n (to_block_form zero n A rp cp) Bi = identity zero one n ->
+    mat_mul zero add mul n Bi (to_block_form zero n A rp cp) = identity zero one n ->
+    mat_mul zero add mul n A (from_block_form zero n Bi rp cp) = identity zero one n /\
+    mat_mul zero add mul n (from_block_form zero n Bi rp cp) A = identity zero one n.
+Proof. exact permuted_inverse. Qed.
+Print Assumptions C37_permuted_inverse.
+
+(* the block form has the entries A[rp_i][cp_j] (row and column slicers, transposes included) *)
+Theorem C37_block_form_entries :
+  forall (T : Type) (zero : T) n (A : list (list T)) rp cp i j,
+    is_perm n rp -> is_perm n cp -> length A = n -> i < n -> j < n ->
+    mget zero (to_block_form zero n A rp cp) i j = mget zero A (nth i rp 0) (nth j cp 0).
+Proof. exact mget_block_form. Qed.
+Print Assumptions C37_block_form_entries.
+
+(* the permutation test evaluated on every computed permutation (tie) is sound *)
+Theorem C37_perm_certificate_sound :
+  forall n p, is_permb n p = true -> is_perm n p.
+Proof. exact is_permb_sound. Qed.
+Print Assumptions C37_perm_certificate_sound.
 
 (* (3) np.searchsorted (bisection) on an array that the key partitions returns the
    partition point, although the array is not sorted. *)
@@ -162,3 +194,15 @@ Proof.
   split; [reflexivity|]. split; [reflexivity|]. split; [repeat constructor|].
   vm_compute. repeat split; reflexivity.
 Qed.
+
+Example C37_nonvacuous_permuted_inverse :
+  let A := [[0; 0; 3]; [0; 5; 0]; [7; 0; 1]]%Z in
+  let A1 := [[0; 0; 1]; [0; 1; 0]; [1; 2; 0]]%Z in
+  let rp := [0; 2; 1] in let cp := [2; 1; 0] in
+  is_permb 3 rp = true /\ is_permb 3 cp = true /\
+  to_block_form 0%Z 3 A1 rp cp = [[1; 0; 0]; [0; 2; 1]; [0; 1; 0]]%Z /\
+  mat_mul 0%Z Z.add Z.mul 3 (to_block_form 0%Z 3 A1 rp cp) [[1; 0; 0]; [0; 0; 1]; [0; 1; -2]]%Z
+    = identity 0%Z 1%Z 3 /\
+  mat_mul 0%Z Z.add Z.mul 3 A1 (from_block_form 0%Z 3 [[1; 0; 0]; [0; 0; 1]; [0; 1; -2]]%Z rp cp)
+    = identity 0%Z 1%Z 3.
+Proof. vm_compute. repeat split; reflexivity. Qed.
